@@ -795,8 +795,14 @@ class ZStr(Sym):
     """unbounded string: a z3 String term.  Used for ids, JIDs, types and free text that the code
     only compares, splits and concatenates."""
 
-    def __init__(self, t):
+    def __init__(self, t, parts=None):
         self.t = zstr_lit(t) if isinstance(t, str) else t
+        self.parts = parts            # optional known structure: list of ZStr / str whose concatenation this is
+        self.free_of = ()             # harness-provided fact: substrings that provably do not occur (consistent with its assumptions)
+        self.has = ()                 # harness-provided fact: substrings that provably occur
+
+    def _parts(self):
+        return self.parts if self.parts else [self]
 
     @staticmethod
     def term(o):
@@ -824,19 +830,24 @@ class ZStr(Sym):
         t = ZStr.term(o)
         if t is None:
             raise TypeError("'in <string>' requires string as left operand")
+        if isinstance(o, str):
+            if o in self.has:
+                return True
+            if o in self.free_of:
+                return False
         return bool(SymBool(z3.Contains(self.t, t)))
 
     def __add__(self, o):
         t = ZStr.term(o)
         if t is None:
             return NotImplemented
-        return ZStr(z3.Concat(self.t, t))
+        return ZStr(z3.Concat(self.t, t), parts=self._parts() + (o._parts() if isinstance(o, ZStr) else [o]))
 
     def __radd__(self, o):
         t = ZStr.term(o)
         if t is None:
             return NotImplemented
-        return ZStr(z3.Concat(t, self.t))
+        return ZStr(z3.Concat(t, self.t), parts=[o] + self._parts())
 
     def length(self):
         return SymInt(z3.Length(self.t))
@@ -909,6 +920,23 @@ class ZSplit(object):
         self._parts = None
 
     def _first(self):
+        # structural shortcut: leading parts known to be free of the separator, then a literal containing it
+        acc = []
+        for p in self.z._parts():
+            if isinstance(p, ZStr):
+                if self.sep in p.free_of:
+                    acc.append(p)
+                    continue
+                break
+            if self.sep in p:
+                head = p.split(self.sep)[0]
+                out = None
+                for a in acc:
+                    out = a if out is None else out + a
+                if out is None:
+                    return ZStr(head) if head else ZStr("")
+                return out + head if head else out
+            acc.append(ZStr(p))
         s = self.z.t
         i = z3.IndexOf(s, zstr_lit(self.sep), 0)
         return ZStr(S(z3.If(i < 0, s, z3.SubString(s, 0, i))))
